@@ -1295,3 +1295,115 @@ def check_accepts_rejects_checker(ctx, rep, f, rule='R-FEEDBACK.K12'):
         rep.undecided(rule, f, 'def ' + f.name, 'outside the evaluator: {}'.format(e))
         return
     rep.holds(rule, f, 'def ' + f.name, 'on {} pairs of word lists (the empty word written in both ways, alone, first, last and among others) OK is printed exactly when the model DFA accepts every word of the first list and rejects every word of the second'.format(cases))
+
+
+# ---- the recorded run of an NFA on model NFAs ------------------------------------------------------------------------------------------
+
+def check_nfa_run(ctx, rep, f, rule=RULE + '.M29'):
+    """nfa_simulate_word on the model NFAs and all words up to length 3: None exactly when the word is not accepted; otherwise a
+    list of rows (state, unread rest) that starts at (q0, w), ends at (f, '') with f final, and in which every row follows from
+    the previous one by an epsilon move (rest unchanged) or by a move on the first unread letter."""
+    cases = 0
+    try:
+        for name, spec in _ACC_NFAS.items():
+            for order in ('asc', 'desc'):
+                N = _nfa(*spec)
+                fl = N._f
+                Sigma = set(fl['Sigma'])
+                L = _nfa_lang(N, Sigma, 3)
+                for k in range(4):
+                    for tup in itertools.product(sorted(Sigma), repeat=k):
+                        w = ''.join(tup)
+                        ok, got = _run(rule, rep, f, lambda: _interp(ctx, order, classes={'NFA': _nfa_class}, max_steps=400000).call(f, [N, w]), 'on the NFA "{}" and the word {!r}'.format(name, w))
+                        if not ok:
+                            return
+                        cases += 1
+                        if (got is None) != (w not in L):
+                            rep.violates(rule, f, 'def ' + f.name, 'on the NFA "{}" the word {!r} is {} but {}'.format(name, w, 'accepted' if w in L else 'not accepted', 'no run is returned' if got is None else 'a run is returned'))
+                            return
+                        if got is None:
+                            continue
+                        if not isinstance(got, list) or not all(isinstance(r, tuple) and len(r) == 2 for r in got):
+                            raise Unsupported('the run is not a list of pairs')
+                        rows = [(str(q), str(u)) for q, u in got]
+                        bad = None
+                        if not rows or rows[0] != (fl['q0'], w):
+                            bad = 'it does not start at the initial configuration ({}, {!r})'.format(fl['q0'], w)
+                        elif rows[-1][1] != '' or rows[-1][0] not in fl['F']:
+                            bad = 'it does not end in a final state with the word read'
+                        else:
+                            for (p, u), (q, v) in zip(rows, rows[1:]):
+                                if u == v and q in fl['delta'].get((p, fl['epsilon']), ()):
+                                    continue
+                                if u and u[1:] == v and q in fl['delta'].get((p, u[0]), ()):
+                                    continue
+                                bad = 'the row ({}, {!r}) does not follow from ({}, {!r}) by a transition of the NFA'.format(q, v, p, u)
+                                break
+                        if bad:
+                            rep.violates(rule, f, 'def ' + f.name, 'on the NFA "{}" and the word {!r} the recorded run {} is not a run: {}'.format(name, w, rows, bad))
+                            return
+    except (Unsupported, RecursionError) as e:
+        rep.undecided(rule, f, 'def ' + f.name, 'outside the evaluator: {}'.format(e))
+        return
+    rep.holds(rule, f, 'def ' + f.name, 'on {} evaluations (13 model NFAs, all words up to length 3, two iteration orders of sets) a run is returned exactly for the accepted words and every returned run is genuine: from (q0, w) to a final state, each row by one transition'.format(cases))
+
+
+def check_pda_run(ctx, rep, f, rule=RULE + '.M30'):
+    """pda_simulate_word on the model PDAs and all words up to length 4 resp. 3: None exactly when no accepting computation
+    exists; otherwise rows (state, unread rest, stack) from (q0, w, []) to a final state with the word read, every row following
+    from the previous one by ONE transition of the PDA: the letter read (or none), the symbol popped if it is on top, the symbol
+    pushed."""
+    from .small_models import _pda_classes
+    cases = 0
+    try:
+        for name, spec in _PDAS.items():
+            sigma = sorted(spec[1])
+            for n in range((4 if len(sigma) <= 2 else 3) + 1):
+                for tup in itertools.product(sigma, repeat=n):
+                    w = ''.join(tup)
+                    for order in ('asc', 'desc'):
+                        P = _pda(*spec)
+                        fl = P._f
+                        E = fl['epsilon']
+                        it = _interp(ctx, order, classes=_pda_classes(), max_steps=400000)
+                        it.constants = {'GambaTools.pda_epsilon_closure_max_iterations': 1000}
+                        ok, got = _run(rule, rep, f, lambda: it.call(f, [P, w]), 'on the PDA "{}" and the word {!r}'.format(name, w))
+                        if not ok:
+                            return
+                        cases += 1
+                        want = _pda_accepts_ref(P, w)
+                        if (got is None) == want:
+                            rep.violates(rule, f, 'def ' + f.name, 'on the PDA "{}" the word {!r} {} but {}'.format(name, w, 'has an accepting computation' if want else 'has no accepting computation', 'no run is returned' if got is None else 'a run is returned'))
+                            return
+                        if got is None:
+                            continue
+                        if not isinstance(got, list) or not all(isinstance(r, tuple) and len(r) == 3 for r in got):
+                            raise Unsupported('the run is not a list of triples')
+                        rows = [(str(q), str(u), tuple(str(x) for x in st)) for q, u, st in got]
+                        bad = None
+                        if not rows or rows[0] != (fl['q0'], w, ()):
+                            bad = 'it does not start at ({}, {!r}, [])'.format(fl['q0'], w)
+                        elif rows[-1][1] != '' or rows[-1][0] not in fl['F']:
+                            bad = 'it does not end in a final state with the word read'
+                        else:
+                            for (p, u, st), (q, v, st1) in zip(rows, rows[1:]):
+                                found = False
+                                for (p0, a, x), Q1 in fl['delta'].items():
+                                    if p0 != p or not ((a == E and u == v) or (a != E and u and u[0] == a and u[1:] == v)):
+                                        continue
+                                    if x != E and not (st and st[-1] == x):
+                                        continue
+                                    base = st if x == E else st[:-1]
+                                    if any(q1 == q and base + ((y,) if y != E else ()) == st1 for (q1, y) in Q1):
+                                        found = True
+                                        break
+                                if not found:
+                                    bad = 'the row ({}, {!r}, {}) does not follow from ({}, {!r}, {}) by one transition of the PDA'.format(q, v, list(st1), p, u, list(st))
+                                    break
+                        if bad:
+                            rep.violates(rule, f, 'def ' + f.name, 'on the PDA "{}" and the word {!r} the recorded run is not a computation: {}'.format(name, w, bad))
+                            return
+    except (Unsupported, RecursionError) as e:
+        rep.undecided(rule, f, 'def ' + f.name, 'outside the evaluator: {}'.format(e))
+        return
+    rep.holds(rule, f, 'def ' + f.name, 'on {} evaluations (six model PDAs, all words up to length 4 resp. 3, two iteration orders of sets) a run is returned exactly when an accepting computation exists and every returned run is a computation of the PDA'.format(cases))
